@@ -26,6 +26,15 @@ func genC11(t *rapid.T) any {
 		c.KSel = rapid.IntRange(1, 12).Draw(t, "ksel")
 	}
 	c.Twice = rapid.IntRange(0, 3).Draw(t, "twice") == 0
+	if rapid.IntRange(0, 7).Draw(t, "backrefkey") == 0 {
+		// the caller's own data may use the key name that the engine uses for its back reference
+		if rows, _ := c.W.Doc["t"].([]any); len(rows) > 0 {
+			i := rapid.IntRange(0, len(rows)-1).Draw(t, "backrefrow")
+			if row, ok := rows[i].(map[string]any); ok {
+				row["<-"] = rapid.SampledFrom([]any{1.0, "x", map[string]any{"a": 1.0}, nil}).Draw(t, "backrefval")
+			}
+		}
+	}
 	return c
 }
 
@@ -152,6 +161,7 @@ func init() {
 			"array lengths and order, same leaves, no cycle). Non-trivial: a composite construct returned >=1 row, or the injected failure fired.",
 		Assumptions: []string{
 			"the document is built fresh per case; nothing is shared between cases",
+			"an eighth of the documents contain a row with a key literally named `<-` (the comparison is against the snapshot, so a caller-owned `<-` must survive unchanged)",
 		},
 		Gen:      genC11,
 		New:      func() any { return &C11Case{} },
